@@ -122,8 +122,11 @@ YAML_SUMMARIES = {"extern:yaml.load": yaml_load_summary, "extern:yaml.safe_load"
 
 
 def match_interp(program) -> Interp:
+    # the tagging observer's entry point, wherever in its class hierarchy it is defined
+    vo = program.find_class("ValidAddrObserver")
+    vm = vo.find_method("observe_instruction") if vo is not None else None
     return make_interp(program, {"ObjdumpParserManual.parse": parse_summary,
-                                 "ValidAddrObserver.observe_instruction": valid_addr_summary,
+                                 (vm.qualname if vm is not None else "ValidAddrObserver.observe_instruction"): valid_addr_summary,
                                  "Yaml2Regex.produce_regex": produce_regex_summary,
                                  "Yaml2Regex.load_file": load_file_summary}, max_paths=60000)
 
